@@ -511,6 +511,21 @@ def with_new_callees(F, fn, depth=3):
     return out
 
 
+def const_value(F, e):
+    """literal value of an expression, looking through a path to a constant item whose body is a literal
+    (`const WORKBOOK_RELS: &str = "xl/_rels/workbook.xml.rels"`)"""
+    v = lit_value(e)
+    if v is not None:
+        return v
+    pe = peel(e) if isinstance(e, dict) else None
+    if isinstance(pe, dict) and pe.get("k") == "Path" and pe.get("res", {}).get("dk") in ("Const", "Static"):
+        d = path_def(pe)
+        for c in getattr(F, "consts", []):
+            if norm(c["def"]) == d and c.get("body") is not None:
+                return lit_value(c["body"])
+    return None
+
+
 def inl_params(body):
     """{lid of an inlined helper's parameter: the argument expression it is bound to} (see Facts._inline_new_helpers)"""
     out = {}
@@ -565,6 +580,26 @@ def _ends_leaving(e):
     return False
 
 
+def _nest_let_else(block):
+    """`{ ..; let PAT = INIT else { ELSE }; rest.. }`  ->  `{ ..; match INIT { PAT => { rest.. }, _ => ELSE } }`  (src =
+    "LetElse"): the let-else spelling and the two-arm match spelling of the same control flow get one shape.
+    `flat_stmts` gives the flat statement list back (with the binding as a `Let`)."""
+    stmts = block.get("stmts") or []
+    for i, st in enumerate(stmts):
+        if st.get("k") != "Let" or st.get("els") is None or st.get("init") is None:
+            continue
+        rest_stmts = stmts[i + 1:]
+        rest = {"k": "BlockExpr", "span": (rest_stmts[0] if rest_stmts else (block.get("expr") or st)).get("span", st["span"]), "ty": block.get("ty"), "nested_rest": True,
+                "block": _nest_let_else({"k": "Block", "span": st["span"], "stmts": rest_stmts, "expr": block.get("expr")})}
+        els = st["els"]
+        els_e = els if els.get("k") == "BlockExpr" else {"k": "BlockExpr", "span": els.get("span", st["span"]), "ty": "!", "block": els}
+        m = {"k": "Match", "span": st["span"], "ty": block.get("ty"), "id": st.get("id"), "src": "LetElse", "scrut": st["init"], "let_pat": st["pat"],
+             "arms": [{"span": st["pat"].get("span", st["span"]), "pat": st["pat"], "guard": None, "body": rest},
+                      {"span": els.get("span", st["span"]), "pat": {"k": "Wild", "span": st["span"], "ty": st["pat"].get("ty")}, "guard": None, "body": els_e}]}
+        return dict(block, stmts=stmts[:i], expr=m)
+    return block
+
+
 def _nest_early_exits(block):
     """`{ ..; if C { leave }  rest.. }`  ->  `{ ..; if C { leave } else { rest.. } }` and, for a negated test,
     `{ ..; if !X { leave }  rest.. }`  ->  `{ ..; if X { rest.. } else { leave } }` -- the guarded-early-exit spelling and
@@ -609,6 +644,9 @@ def flat_stmts(block):
             rest = eu["els"] if eu["src"] == "EarlyExit" else eu["then"]
             out.append({"k": "Expr", "e": eu, "span": eu["span"]})
             out += flat_stmts(rest["block"])
+        elif isinstance(eu, dict) and eu.get("k") == "Match" and eu.get("src") == "LetElse":
+            out.append({"k": "Let", "pat": eu["let_pat"], "init": eu["scrut"], "span": eu["span"], "from_let_else": eu})
+            out += flat_stmts(eu["arms"][0]["body"]["block"])
         else:
             out.append({"k": "Expr", "e": e, "span": e.get("span") if isinstance(e, dict) else None, "tail": True})
     return out
@@ -684,6 +722,8 @@ def normalise(node):
     k = node.get("k")
     if k == "Block" and not os.environ.get("CALAMIR_NO_EARLYEXIT"):
         node = _nest_early_exits(node)
+    if k == "Block" and not os.environ.get("CALAMIR_NO_LETELSE"):
+        node = _nest_let_else(node)
     if k == "If":
         c = node.get("cond")
         cu = c
